@@ -127,16 +127,64 @@ Definition kn_impl_gen (fs fe : bool) (c : corpus) (n : nat) (o : options) : res
   finish_with n o tab stats.
 Definition kn_impl := kn_impl_gen true true.
 
+(* ---- the gamma records AddRight sends to Interpolate for order k1 = k+1: one per context of the (unpruned) k1-grams, in
+   the order of the context-sorted stream, i.e. the suffix order of the contexts.  (AddRight's grouping of the sorted
+   stream is represented by its result here.) *)
+Definition contexts (tab : list (list entry)) (k1 : nat) : list gram :=
+  sort_uniq (map (fun e => tl (e_gram e)) (ents tab k1)).
+Definition gamma_stream (tab : list (list entry)) (ds : list disc) (k1 : nat) : list (gram * Q) :=
+  map (fun c => (c, gamma tab ds k1 c)) (contexts tab k1).
+
+(* Callback::Enter, the back-off of the n-gram just entered.  "Not a context": the n-gram ends in <unk> or </s>, or the
+   stream is exhausted.  Without pruning at the next order the NEXT record is taken (position only); with pruning
+   records are skipped until the hash of the record equals the hash of the n-gram (the 64-bit MurmurHash is modelled
+   by the context itself: no collisions). *)
+Definition last_special (g : gram) : bool := let w := hd UNK g in (w =? UNK)%N || (w =? EOS)%N.
+Fixpoint join_seq (gs : list gram) (st : list (gram * Q)) : list Q :=
+  match gs with
+  | [] => []
+  | g :: t =>
+      if last_special g then 1 :: join_seq t st
+      else match st with
+           | [] => 1 :: join_seq t []
+           | (_, gm) :: st' => gm :: join_seq t st'
+           end
+  end.
+Fixpoint skip_to (g : gram) (st : list (gram * Q)) : option (Q * list (gram * Q)) :=
+  match st with
+  | [] => None
+  | (c, gm) :: st' => if geqb c g then Some (gm, st') else skip_to g st'
+  end.
+Fixpoint join_hash (gs : list gram) (st : list (gram * Q)) : list Q :=
+  match gs with
+  | [] => []
+  | g :: t =>
+      if last_special g then 1 :: join_hash t st
+      else match skip_to g st with
+           | Some (gm, st') => gm :: join_hash t st'
+           | None => 1 :: join_hash t []
+           end
+  end.
+Definition hash_mode (o : options) (k1 : nat) : bool :=
+  (match o_limit o with Some _ => true | None => false end) || (0 <? thr o k1)%N.
+(* the back-off weights of the kept order-k n-grams, in stream order *)
+Definition backoffs_impl (n : nat) (o : options) (tab : list (list entry)) (ds : list disc) (k : nat) : list Q :=
+  let gs := map e_gram (filter kept (ents tab k)) in
+  if (k <? n)%nat then (if hash_mode o (S k) then join_hash else join_seq) gs (gamma_stream tab ds (S k))
+  else map (fun _ => 1) gs.
+
 (* ---- Interpolate (lm/builder/interpolate.cc), bottom up as the code computes it: MergeRight has stored with every kept
    n-gram its uninterpolated probability and the interpolation weight of its context; Callback::Enter combines them with
    probs_[order-1], the interpolated probability of the SUFFIX n-gram, which the JointOrder traversal must have entered
    just before -- it throws "Detected n-gram without matching suffix" when the suffix is not in the lower stream.
-   (The merge-join of JointOrder itself is represented by a lookup; the streams are in suffix order by C05_adjust_counts_refines_spec.) *)
+   (The merge-join of JointOrder itself is represented by a lookup; the streams are in suffix order by C05_adjust_counts_refines_spec.)
+   The back-off weight comes from the gamma stream through Callback::Enter's positional or hash join (backoffs_impl). *)
 Section Interp.
   Variable n : nat.
   Variable tab : list (list entry).
   Variable ds : list disc.
   Variable interp : bool.
+  Variable o : options.
 
   Definition uninterp (k : nat) (e : entry) : Q * Q :=
     let g := e_gram e in
@@ -152,7 +200,7 @@ Section Interp.
     if (k =? 1)%nat then Some uniform
     else option_map a_prob (find (fun a => geqb (a_gram a) (removelast g)) prev).
 
-  Fixpoint interp_order (k : nat) (prev : list arpa) (es : list entry) : list arpa + gram :=
+  Fixpoint interp_order (k : nat) (prev : list arpa) (es : list entry) (bos : list Q) : list arpa + gram :=
     match es with
     | [] => inl []
     | e :: t =>
@@ -160,9 +208,9 @@ Section Interp.
         match lower_prob k prev g with
         | None => inr g
         | Some lower =>
-            match interp_order k prev t with
+            match interp_order k prev t (tl bos) with
             | inr x => inr x
-            | inl r => inl (mkA g (Qred (fst (uninterp k e) + snd (uninterp k e) * lower)) (Qred (backoff n tab ds k g)) :: r)
+            | inl r => inl (mkA g (Qred (fst (uninterp k e) + snd (uninterp k e) * lower)) (Qred (hd 1 bos)) :: r)
             end
         end
     end.
@@ -171,7 +219,7 @@ Section Interp.
     match ks with
     | [] => inl []
     | k :: ks' =>
-        match interp_order k prev (filter kept (ents tab k)) with
+        match interp_order k prev (filter kept (ents tab k)) (backoffs_impl n o tab ds k) with
         | inr g => inr g
         | inl cur => match interp_orders ks' cur with inl r => inl (cur :: r) | inr g => inr g end
         end
@@ -186,7 +234,7 @@ Definition kn_pipeline (c : corpus) (n : nat) (o : options) : result2 :=
   let '(tab, stats) := adjust true true n o (sorted_counts n (events c)) in
   match all_discounts (o_fallback o) 1 stats with
   | inr k => Refused2 k
-  | inl ds => match interp_orders n tab ds (o_interp_uni o) (seq 1 n) [] with
+  | inl ds => match interp_orders n tab ds (o_interp_uni o) o (seq 1 n) [] with
               | inr g => NoSuffix2 g
               | inl orders => Built2 (mkM (map s_count_pruned stats) ds orders)
               end
